@@ -285,7 +285,9 @@ def concat_pred(sc, tree, ph, txt):
     f = ast.unparse(t.func)
     fails = []
     if sc.holds(vol):
-        want = "markup_join if context.eval_ctx.volatile else str_join"
+        # the escaping mode is only known at run time: the join must be chosen by the run-time autoescape flag
+        # (contract correction: the first version copied the code's `context.eval_ctx.volatile` test; fixed in /repo c4cf9a7)
+        want = "markup_join if context.eval_ctx.autoescape else str_join"
     elif sc.holds(z3.And(z3.Not(vol), auto)):
         want = "markup_join"
     elif sc.holds(z3.And(z3.Not(vol), z3.Not(auto))):
@@ -374,19 +376,65 @@ def seq_pred(kind):
     return pred
 
 
+def _find_app(pc, name):
+    """the application of the uninterpreted predicate `name` that occurs in the path condition"""
+    found = []
+
+    def walk(t):
+        if z3.is_app(t):
+            if t.decl().name() == name:
+                found.append(t)
+            for c in t.children():
+                walk(c)
+
+    for c in pc:
+        walk(c)
+    return found[0] if found else None
+
+
 def const_pred(sc, tree, ph, txt):
-    """the Python literal of the constant's value"""
+    """the emitted text is ONE Python operand that evaluates to the constant:
+         repr(value)                       any value (Python: eval(repr(v)) == v for the literal types has_safe_repr admits)
+         str(value)                        float values only (repr and str of a float agree), and only finite ones
+         float(<repr of str(value)>)       float values (float(str(v)) is v, also for inf / -inf / nan, which have no literal)
+       and a text that starts with `-` is parenthesised (a negative literal is a unary expression)"""
     if sc.outcome == "raise":
         return [f"raises {sc.value!r}"]
+    isf = _find_app(sc.pc, "isinstance:builtins.float")
+    fin = _find_app(sc.pc, "math.isfinite")
+    is_float = isf is not None and sc.holds(isf)
+    finite = fin is not None and sc.holds(fin)
     t = txt.strip()
-    if t.startswith("(") and t.endswith(")"):
-        t = t[1:-1].strip()       # a parenthesised literal is the same literal
-    p = ph.get(t)
-    if not (isinstance(p, tuple) and p[0] in ("repr", "str") and "node.value" in str(p[1])):
-        return [f"constant is not emitted as repr(value): {txt!r}"]
-    if p[0] == "str" and not sc.holds(z3.Or(*[c for c in sc.pc if "float" in str(c)] or [z3.BoolVal(False)])):
-        return ["str() used for a non-float constant"]
-    return []
+    try:
+        e = ast.parse(t, mode="eval").body
+    except SyntaxError:
+        return [f"constant text is not an expression: {txt!r}"]
+    if isinstance(e, ast.Call):
+        # float('<str(value)>')
+        ok = (emit.call_name(e) == "float" and len(e.args) == 1 and not e.keywords and isinstance(e.args[0], ast.Constant) and isinstance(e.args[0].value, str))
+        p = ph.get(f"'{e.args[0].value}'") if ok else None
+        if not (isinstance(p, tuple) and p[0] == "repr" and str(p[1]) == "py_str_obj(node.value)"):
+            return [f"constant text {txt!r} is not float(<str(value)>)"]
+        if not is_float:
+            return ["float(str(value)) written for a value that is not known to be a float"]
+        return []
+    parenthesised = t.startswith("(") and t.endswith(")")
+    inner = t[1:-1].strip() if parenthesised else t
+    p = ph.get(inner)
+    if not (isinstance(p, tuple) and p[0] in ("repr", "str") and str(p[1]) == "node.value"):
+        return [f"constant text {txt!r} does not evaluate to the constant (expected repr(value), str(value) of a float, or float(str(value)))"]
+    fails = []
+    if p[0] == "str" and not is_float:
+        fails.append("str() used for a non-float constant")
+    if is_float and not finite:
+        fails.append("a float that may be inf / nan is written as its bare repr (a name, not a literal)")
+    if not parenthesised:
+        term = (z3.Function("py_str_obj", emit.Obj if hasattr(emit, "Obj") else z3.DeclareSort("Obj"), z3.StringSort()) if False else None)
+        lit = [c for c in sc.pc if "PrefixOf" in str(c)]
+        neg_excluded = any(str(c).replace("\n", " ").startswith("Not(PrefixOf(\"-\"") for c in lit)
+        if not neg_excluded:
+            fails.append("the text may start with `-` and is not parenthesised: a negative literal is not one operand")
+    return fails
 
 
 def name_pred(sc, tree, ph, txt):
